@@ -5,7 +5,7 @@ directory and normalising gives exactly "normalised directory / file name".
 import PdfVerif.Model.Path
 
 namespace PdfVerif.PathLemmas
-open PdfVerif PdfVerif.Path
+open PdfVerif PdfVerif.Path PdfVerif.ImageName
 
 /-- A plain path component: no `/`, and none of ``, `.`, `..`. -/
 def PlainComp (f : Bytes) : Prop := (¬ 47 ∈ f) ∧ f ≠ [] ∧ f ≠ [46] ∧ f ≠ [46, 46]
@@ -94,5 +94,61 @@ theorem norm_join_plain (d f : Bytes) (hf : PlainComp f) :
       simp only [hne, hl, Bool.or_self, Bool.false_eq_true, if_false, norm]
       rw [isAbs_append _ _ hd, splitSlash_append, splitSlash_plain f hf.1, foldl_normStep_plain _ _ _ hf]
       simp
+
+theorem cmapFilename_plain (name : Bytes) (h : plainFile (cmapFilename name) = true) :
+    PlainComp (cmapFilename name) := by
+  have hlen : 10 ≤ (cmapFilename name).length := by simp [cmapFilename]
+  refine ⟨by simpa [plainFile] using h, ?_, ?_, ?_⟩ <;>
+  · intro he
+    rw [he] at hlen
+    simp at hlen
+
+/-- Extensions the writer uses: no separator, at least 3 bytes (`.bmp`, `.jpg`, `.jp2`, `.N.WxH.img`). -/
+def ValidExt (ext : Bytes) : Prop := (¬ 47 ∈ ext) ∧ 3 ≤ ext.length
+
+theorem safeName_no_slash (name : Bytes) : ¬ 47 ∈ safeName name := by
+  unfold safeName
+  intro h
+  obtain ⟨c, _, hc⟩ := List.mem_map.mp h
+  split at hc
+  · cases hc
+  · rename_i hne
+    exact hne (Or.inl hc)
+
+theorem decRev_digits : ∀ (fuel n : Nat) (c : UInt8), c ∈ decRev fuel n → c ≠ 47
+  | 0, _, _, h => by simp [decRev] at h
+  | fuel + 1, n, c, h => by
+    unfold decRev at h
+    rcases List.mem_cons.mp h with rfl | h
+    · intro he
+      have := congrArg UInt8.toNat he
+      simp only [UInt8.toNat_ofNat'] at this
+      have : (48 + n % 10) % 256 = 47 := this
+      omega
+    · split at h
+      · simp at h
+      · exact decRev_digits fuel (n / 10) c h
+
+theorem dec_no_slash (n : Nat) : ¬ 47 ∈ dec n := by
+  unfold dec
+  intro h
+  exact decRev_digits _ _ _ (List.mem_reverse.mp h) rfl
+
+theorem candidate_plain (name ext : Bytes) (hext : ValidExt ext) (k : Nat) :
+    PlainComp (candidate (safeName name) ext k) := by
+  have hlen : 3 ≤ (candidate (safeName name) ext k).length := by
+    cases k <;> simp [candidate] <;> have := hext.2 <;> omega
+  refine ⟨?_, ?_, ?_, ?_⟩
+  · cases k with
+    | zero =>
+      simp only [candidate, List.mem_append, not_or]
+      exact ⟨safeName_no_slash name, hext.1⟩
+    | succ k =>
+      simp only [candidate, List.mem_append, not_or, List.mem_singleton]
+      exact ⟨⟨⟨safeName_no_slash name, by decide⟩, dec_no_slash k⟩, hext.1⟩
+  all_goals
+    intro he
+    rw [he] at hlen
+    simp at hlen
 
 end PdfVerif.PathLemmas
